@@ -71,7 +71,14 @@ pub fn run(ctx: &Ctx, rep: &mut Report) {
     }
     let mut banks = lab.mine_empty(16).into_iter();
     // cardinals large enough to fund batches, inscriptions that can be parents / delegates, one runic output
-    let values: Vec<u64> = (0..rng.usize(4, 8)).map(|_| rng.range(200_000, 3_000_000)).collect();
+    // a third of the wallets hold only small cardinals: no single one covers
+    // what a commit needs, so the builder has to combine several (and must
+    // still leave the runic output alone, which is then of similar size)
+    let fragmented = rng.chance(1, 3);
+    if fragmented {
+      rep.count("wallets_with_fragmented_cardinals");
+    }
+    let values: Vec<u64> = if fragmented { (0..rng.usize(8, 14)).map(|_| rng.range(2_500, 9_500)).collect() } else { (0..rng.usize(4, 8)).map(|_| rng.range(200_000, 3_000_000)).collect() };
     let mut cardinals = lab.pay_wallet(banks.next().unwrap(), &values);
     let mut owned_inscriptions: Vec<InscriptionId> = Vec::new();
     for i in 0..rng.usize(1, 3) {
@@ -80,7 +87,8 @@ pub fn run(ctx: &Ctx, rep: &mut Report) {
       owned_inscriptions.push(id);
     }
     let script = lab.wallet_script();
-    lab.etch(banks.next().unwrap(), &[(script, rng.range(10_000, 6_000_000), 500)], 0, None);
+    let runic_value = if fragmented { rng.range(6_000, 10_000) } else { rng.range(10_000, 6_000_000) };
+    lab.etch(banks.next().unwrap(), &[(script, runic_value, 500)], 0, None);
     let (_, foreign_id) = lab.inscribe_to(banks.next().unwrap(), foreign_script(0x71), 10_000, b"delegate target");
     lab.mine_empty(1);
     rep.count("wallets");
